@@ -8,6 +8,7 @@
     (4 vals sched)   mid-notification read  (((a b) ...) final_s (status status) hang)
     (5 0 sched)      lock order, HEAD traces of scenario 5      (hang)
     (6 0 sched)      lock order, traces before the notify_subs commit   (hang)
+    (7 sched)        signal read vs write holding the lock      ((reader_status value) writer_status final_s)
     status: 0 = waiting at a yield point / parked, 1 = finished, 2 = blocked on a lock, 3 = panicked *)
 From Coq Require Import List ZArith NArith Bool Arith.
 From LV Require Import Base.Sexp Reactive.Park Reactive.Cross Reactive.Locks.
@@ -59,6 +60,15 @@ Definition obs_glitch (s : gst) : sexp :=
 Definition obs_lock (st : list lthr * list nat) : sexp :=
   Lst [sbool (deadlocked (fst st))].
 
+Definition obs_read (s : rst) : sexp :=
+  Lst [match r_r s with
+       | R0 => Lst [Num 0; Num 0]
+       | RDone v => Lst [Num 1; Num v]
+       | RPanic => Lst [Num 3; Num 0]
+       end;
+       Num (match r_w s with WDone => 1 | _ => 0 end)%Z;
+       Num (r_sv s)].
+
 Definition run_C19 (c : sexp) : sexp :=
   match as_Z (nth_s 0 c) with
   | 0%Z => obs_await (arun Prefix (ainit (as_bools (nth_s 1 c))) (as_nats (nth_s 2 c)))
@@ -70,5 +80,6 @@ Definition run_C19 (c : sexp) : sexp :=
   | 4%Z => obs_glitch (grun (ginit (as_Zs (nth_s 1 c))) (as_nats (nth_s 2 c)))
   | 5%Z => obs_lock (lrun_coarse (linit [e_rerun_sd; d_complete]) (as_nats (nth_s 2 c)))
   | 6%Z => obs_lock (lrun_coarse (linit [e_rerun_sd; d_complete_prefix]) (as_nats (nth_s 2 c)))
+  | 7%Z => obs_read (rrun rinit (as_nats (nth_s 1 c)))
   | _ => Lst []
   end.
